@@ -205,17 +205,22 @@ CLAIMED.update({
              'recovery, lower bound at power, linear scaling, shift invariance, monotone decrease in corr^2 for a positive multiplier. '
              'Executed: required impact vs the real TBR post-analysis of a displaced experiment frame (1e-8), planted-lift recovery, '
              'lower bound, scaling / shift / monotonicity on the implementation, and required_impact / estimate_required_impact / tbrfit '
-             'against the rational model. Open known finding: negative multiplier when sig_level + power_level < 1.',
-        note=TBR_NOTE, technique='Rocq/Coq proof (field identities over Q by induction on the series) + executed correspondence + '
-        'direct oracle', ref='DESIGN.md section 5 C05'),
+             'against the rational model. _impact_estimate / estimate_required_impact / tbrfit are regenerated from the source '
+             '(gen/Gen_Formulas.v); over Q with a square-root oracle their squares are proved to be the model\'s (C05_translated_*), '
+             'and the generated definitions run on floats are compared with the implementation. '
+             'Open known finding: negative multiplier when sig_level + power_level < 1.',
+        note=TBR_NOTE + ' Translator target formulas (scipy quantiles, np.std / np.var, means and pre-period fit as oracles).',
+        technique='Rocq/Coq proof (field identities over Q by induction on the series; source-regenerated closed formulas bridged to the model) '
+        '+ executed correspondence + direct oracle', ref='DESIGN.md section 5 C05'),
     'C06': dict(
         text='Coq theorems over exact rationals (props/C06.v): the variance propagated from the OLS covariance is Kerman eq. 5 on every '
              'analysed day; group totals are invariant under row permutation, splitting a group over geos and rows of other groups; '
              'summary ordering and precision for tail probability <= 1/2 (refuted above 1/2: known finding); design-side estimate and '
              'scale agree with the analysis side. Executed: posterior location / scale of every analysed day against the rational model '
              '(1e-8), df, layout independence (shuffle, split, unassigned geo), summary rows for random (level, tails, threshold, '
-             'rescale), tbrfit vs TBR.',
-        note=TBR_NOTE, technique='Rocq/Coq proof (field identities, permutation invariance, ordered-field facts) + executed '
+             'rescale), tbrfit vs TBR. tbrfit is regenerated from the source (gen/Gen_Formulas.v) and proved, over Q with a '
+             'square-root oracle, to give the analysis estimate and the posterior scale (C06_translated_design_side_*).',
+        note=TBR_NOTE + ' Translator target formulas.', technique='Rocq/Coq proof (field identities, permutation invariance, ordered-field facts; source-regenerated tbrfit bridged to the model) + executed '
         'correspondence with exact rationals + direct oracle', ref='DESIGN.md section 5 C06'),
     'C07': dict(
         text='Coq theorems (props/C07.v) for the fixed-cost scenario: iROAS quantiles are response quantiles divided by the cost, '
